@@ -68,18 +68,24 @@ def fmtLeaf : Leaf → String
   | .lie k => s!"L{k}"
 
 open Retain in
-/-- body in prefix form: `r` ret, `x` raise, `c<slot>` call then continuation, `n` nest: inner then continuation -/
-partial def parseBody : List String → Except String (Retain.Body × List String)
+/-- body in prefix form: `r` ret, `x` raise, `c<slot>` call then continuation, `n` nest (inner, continuation; the nested
+context iterates in the order `ord`), `t` try (inner, handler, continuation) -/
+partial def parseBody (ord : List Nat) : List String → Except String (Retain.Body × List String)
   | "r" :: rest => return (.ret, rest)
   | "x" :: rest => return (.raise, rest)
   | "n" :: rest => do
-    let (inner, r1) ← parseBody rest
-    let (k, r2) ← parseBody r1
-    return (.nest inner k, r2)
+    let (inner, r1) ← parseBody ord rest
+    let (k, r2) ← parseBody ord r1
+    return (.nest ord inner k, r2)
+  | "t" :: rest => do
+    let (inner, r1) ← parseBody ord rest
+    let (h, r2) ← parseBody ord r1
+    let (k, r3) ← parseBody ord r2
+    return (.try_ inner h k, r3)
   | t :: rest =>
     if t.startsWith "c" then
       match (t.drop 1).toNat? with
-      | some s => do let (k, r) ← parseBody rest; return (.call s k, r)
+      | some s => do let (k, r) ← parseBody ord rest; return (.call s k, r)
       | none => throw s!"bad-body:{t}"
     else throw s!"bad-body:{t}"
   | [] => throw "arity"
@@ -245,18 +251,50 @@ def opsC06 : List (String × Handler) := [
         | some s => return (reprStr s)
         | none => throw "no-semantics"
       | _ => throw "arity"),
-  -- c06.retain o0 o1 o2 failAt(-1 = none) <body>    → slots 0..3, outcome, call log
+  -- c06.retain <cur|slot> o0 o1 o2 failAt(-1 = none) <body>    → slots 0..4, outcome, call log
   ("c06.retain", fun ts => do
       match ts with
-      | o0 :: o1 :: o2 :: fa :: rest =>
+      | pol :: o0 :: o1 :: o2 :: fa :: rest =>
         let ord ← nats [o0, o1, o2]
         let fa ← int fa
-        let (body, _) ← parseBody rest
-        let t0 : Retain.Table := fun q => Retain.Fn.orig q
-        let r := Retain.retain ord t0 body (if fa < 0 then none else some fa.toNat)
-        let slots := " ".intercalate ((List.range 4).map fun q => fmtFn (r.1 q))
+        let H : Retain.Home := if pol == "slot" then Retain.homeSlot else Retain.homeCur
+        let (body, _) ← parseBody ord rest
+        let r := Retain.retain H ord Retain.pristine body (if fa < 0 then none else some fa.toNat)
+        let slots := " ".intercalate ((List.range 5).map fun q => fmtFn (r.1 q))
         let oc := match r.2.1 with | .ok => "ok" | .raised => "raised"
         return slots ++ " " ++ oc ++ " " ++ " ".intercalate (r.2.2.map fmtFn)
+      | _ => throw "arity"),
+  -- c06.mulsig <ltype> <same|lie|tensor|scalar> w n ls…   → result kind / full shape of `Mul` with that partner
+  ("c06.mulsig", fun ts => do
+      match ts with
+      | lt :: kind :: w :: rest =>
+        let lt ← parseLT lt
+        let (ls, _) ← takeList rest
+        let p : Partner ← (if kind == "same" then pure Partner.sameLie
+          else if kind == "lie" then do let q ← parseLT w; pure (Partner.lieOther q)
+          else if kind == "tensor" then do let n ← nat w; pure (Partner.tensor n)
+          else pure Partner.scalar)
+        match mulSig lt p with
+        | none => throw "raise"
+        | some r => match r with
+          | .lie t => return s!"lie {ltName t} " ++ fmtShape (r.shape ls)
+          | .tensor _ => return "tensor - " ++ fmtShape (r.shape ls)
+      | _ => throw "arity"),
+  -- c06.tfc name <arg objs> | <result objs>   objs: L<k> LieTensor, P<k> pp.Parameter, T, O;   reply: obj codes, `!` = new object
+  ("c06.tfc", fun ts => do
+      match ts with
+      | name :: rest =>
+        let (a, r) := sepBar rest
+        let po := fun (s : String) => (if s == "T" then Except.ok Obj.tensor else if s == "O" then .ok Obj.other
+          else match (s.drop 1).toNat? with
+            | some k => if s.startsWith "P" then .ok (Obj.param k) else if s.startsWith "L" then .ok (Obj.lie k) else .error s!"bad-obj:{s}"
+            | none => .error s!"bad-obj:{s}" : Except String Obj)
+        let args ← a.mapM po
+        let res ← r.mapM po
+        match torchFunctionCls PP.Gen.handled name args res with
+        | none => throw "indexerror"
+        | some out => return " ".intercalate (out.map fun p =>
+            (match p.1 with | .lie k => s!"L{k}" | .param k => s!"P{k}" | .tensor => "T" | .other => "O") ++ (if p.2 then "" else "!"))
       | _ => throw "arity")
 ]
 
